@@ -23,8 +23,13 @@ func init() {
 					Advances: []int{660, 3700}})
 			}
 		}
+		// grants whose authorization was started from a pushed request, and a second presentation of the same request_uri
+		specs = append(specs, FamSpec{Prop: "C01", Profile: Profile{}, Depth: depth - 1, MaxGrants: 2,
+			Grants:   []Op{{Op: "authz", Client: "A", Flow: "par"}, {Op: "authz", Client: "A", Flow: "par-again"}, {Op: "authz", Client: "A", Flow: "code"}},
+			RedeemBy: []string{"owner", "other"}, RefreshBy: []string{"owner"}, RevokeBy: []string{"owner"}, Hints: []string{""}, Advances: []int{660}})
 		r.Bounds = map[string]any{"history_depth": depth, "max_grants": 2, "strategies": []string{"hmac", "jwt"}, "refresh_scope_configs": []string{"[]", "[offline]", "[rt]"},
-			"alphabet": "authz(A|P code, A hybrid code+id_token, A hybrid code+token) redeem(code, owner|other|badsecret) refresh(rt, owner) revoke(tok, owner) advance(660s|3700s)"}
+			"pushed_requests": fmt.Sprintf("one further search to depth %d: authz(A from a pushed request | same request_uri again | A code) redeem(owner|other) refresh revoke advance(660s), HMAC", depth-1),
+			"alphabet":        "authz(A|P code, A hybrid code+id_token, A hybrid code+token) redeem(code, owner|other|badsecret) refresh(rt, owner) revoke(tok, owner) advance(660s|3700s)"}
 		r.Rule = "explicit-state BFS over API histories; a state is the canonical dump of all store tables + clock + model; every transition replays the whole history on a fresh provider and compares each step with the reference model, then introspects every token ever issued"
 		r.Assumptions = []string{"model: a code yields tokens at most once; any later presentation by an authenticated client answers invalid_grant and kills every token-endpoint-issued token of that grant", "tokens issued by the authorization endpoint itself (hybrid) are not descendants of the code"}
 		famSearch(r, specs)
@@ -32,7 +37,7 @@ func init() {
 	})
 
 	registerCheck("C04", "model_checking", 150*time.Second, 40*time.Minute, func(r *Run) {
-		depth := 6
+		depth := 5
 		if !r.Quick() {
 			depth = 7
 		}
@@ -46,7 +51,16 @@ func init() {
 					Advances: []int{3700, 7300}})
 			}
 		}
-		r.Bounds = map[string]any{"history_depth": depth, "max_grants": 2, "strategies": []string{"hmac", "jwt"}, "refresh_lifespans": []string{"30d", "2h"},
+		rsDepth := depth
+		if !r.Quick() {
+			rsDepth = depth - 1
+		}
+		// JWT access tokens under a deterministic signature scheme (RS256): tokens of one family issued within the same
+		// second differ only in their jti
+		specs = append(specs, FamSpec{Prop: "C04", Profile: Profile{JWTAccess: true, IDKey: "rsa1", RTLifespan: 7200}, Depth: rsDepth, MaxGrants: 2,
+			Grants:   []Op{{Op: "authz", Client: "A", Flow: "code"}, {Op: "password", Client: "A"}, {Op: "device", Client: "A"}},
+			RedeemBy: []string{"owner"}, RefreshBy: []string{"owner", "other"}, RevokeBy: []string{"owner"}, Hints: []string{""}, Advances: []int{3700}})
+		r.Bounds = map[string]any{"history_depth": depth, "max_grants": 2, "strategies": []string{"hmac", "jwt (ES256)", fmt.Sprintf("jwt (RS256, deterministic signatures) to depth %d", rsDepth)}, "refresh_lifespans": []string{"30d", "2h"},
 			"alphabet": "grant(code A, hybrid code+token A, password A, device A, oidc code P) redeem(owner) refresh(every rt ever seen, owner|other) revoke(tok, owner) advance(3700s|7300s)"}
 		r.Rule = "explicit-state BFS over API histories with global deduplication on (store dump, clock, model); every refresh token ever issued stays in the alphabet, so replay of any generation is an ordinary transition; every transition is followed by introspection of every token"
 		r.Assumptions = []string{"model: a refresh token is exchanged at most once; exchange rotates it and its sibling access token; presenting a used one (any authenticated client, expired or not) answers invalid_grant and kills all token-endpoint-issued tokens of the grant; other grants untouched",
